@@ -173,6 +173,13 @@ def leaf_specs(rng, n_lib, n_int):
         ["stacking_mixed", [[[1, 3], [2, 4], [0, 5]], [0.2, 0.3, 0.5]]], ["stacking_vec", [[[1, 3], [2, 4], [0, 5]]]],
         ["stacking", [[[1, 3]], None]], ["dss", [[[1, 3]], [1.0]]], ["dss", [[[1, 2], [3, 4]], [0.5, 0.5]]],
         ["dss", [[[5, 5], [6, 7]], [0.5, 0.5]]],
+        # shapes: one flat and one varying bound (nested focal elements sharing an endpoint), unaligned masses,
+        # exactly one zero-width focal element; samples longer than the number of steps
+        ["stacking", [[[0, 1], [0, 2], [0, 3]], None]], ["stacking", [[[1, 5], [2, 5], [3, 5]], None]],
+        ["dss", [[[0, 1], [0, 2], [0, 3]], [0.3, 0.25, 0.45]]], ["dss", [[[1, 2], [3, 4]], [0.55, 0.45]]],
+        ["dss", [[[1, 1], [2, 4]], [0.3, 0.7]]],
+        ["ECDF", [[round(0.37 * i % 7.0, 4) for i in range(rng.choice([200, 201, 261]))], "float"]],
+        ["ECDF", [[round(0.61 * i % 5.0, 4) for i in range(rng.choice([399, 1000, 1025]))], "float"]],
         # thin but not degenerate, tiny magnitudes
         ["interval", [1.0, 1.0 + 1e-9]], ["interval", [2e-9, 8e-9]], ["interval", [-3e-7, 5e-7]],
         ["uniform", [[1.0, 1.0 + 1e-7], [1.0 + 2e-7, 1.0 + 3e-7]]], ["normal", [[5.0, 5.0 + 1e-6], [1e-7, 2e-7]]],
@@ -477,10 +484,15 @@ def gen_spec(rng, depth, npool, budget):
     C = [-3, -1, -0.5, 0.5, 2, 7, 0, 1, 10.25, -2]
     if rng.random() < 0.15:      # constants below machine epsilon and above 1e15
         C = [1e-20, 2.0 ** -60, 1.380649e-23, -1e-20, 1e18, -3e15]
+    def pair():
+        a = sub()
+        if rng.random() < 0.12:           # the SAME operand (object, for a leaf) on both sides: X*X, X-X, env(a, a)
+            return a, json.loads(json.dumps(a))
+        return a, sub()
     if kind == "bin":
         op = rng.choice(["add", "sub", "mul", "div"])
         dep = rng.choice(["f", "f", "p", "p", "o", "o", "i", "i", "b", "x"] if rng.random() < 0.5 else ["f", "p", "o", "i"])
-        a = sub(); b = sub()
+        a, b = pair()
         return ["bin", op, dep, a, b]
     if kind in ("num", "rnum"):
         return [kind, rng.choice(["add", "sub", "mul", "div"]), rng.choice(C), sub()]
@@ -489,7 +501,7 @@ def gen_spec(rng, depth, npool, budget):
     if kind == "un":
         return ["un", rng.choice(["exp", "sqrt", "log"]), sub()]
     if kind in ("env", "imp"):
-        a = sub(); b = sub()
+        a, b = pair()
         return [kind, a, b]
     if kind == "pown":
         return ["pown", rng.choice([-2, -1, 0, 1, 2, 3, 0.5]), sub()]
@@ -582,7 +594,7 @@ def ctor_cases(ctx):
     cases.append(("ctor-nan", False, [float("nan")] * n, [float("nan")] * n))
     # longer: condensation (with and without NaN on a sampled index)
     for _ in range(ctx.scale(10, 150)):
-        m = rng.choice([n + 1, n + 2, 2 * n - 1, 2 * n, 3 * n + 7, rng.randint(n + 1, 5 * n)])
+        m = rng.choice([n + 1, n + 2, 2 * n - 1, 2 * n, 3 * n + 7, rng.randint(n + 1, 5 * n), 1025, 4097, 5000])
         l, r = wf_pair(m, distinct=True)
         if rng.random() < 0.3:
             (l if rng.random() < 0.5 else r)[rng.randrange(m)] = float("nan")
@@ -886,7 +898,7 @@ def run(ctx: core.Check):
     cc = ctor_cases(ctx)
     reqs = [f"mkn {cw} {1 if lists else 0} {qln(l)} {qln(r)}" for (_, lists, l, r) in cc]
     lens = list(range(1, n)) if ctx.tier == "thorough" else sorted(set([1, 2, 3, 4, 5, 7, 50, 100, 101, n - 2, n - 1] + [rng.randint(1, n - 1) for _ in range(30)]))
-    lens += [n, n + 1, 2 * n, 2 * n + 1, 3 * n - 1, 997, n * n]
+    lens += [n, n + 1, 2 * n, 2 * n + 1, 3 * n - 1, 997, 1024, 1025, 4097, n * n]
     breqs = [f"bsc {cw} {ql(range(m))}" for m in lens]
     replies = model_par("C04", reqs + breqs)
     for (stream, lists, l, r), rep in zip(cc, replies[: len(cc)]):
@@ -1071,6 +1083,7 @@ def run(ctx: core.Check):
     # ---- (b') fixed sequence: the same entry points called repeatedly with operands created and dropped in
     # between, the same numbers bound differently; earlier results must not change and equal calls must agree ------
     sequence_stream(ctx)
+    edge_stream(ctx)
 
     # ---- (c) moment stream results ---------------------------------------------------------------
     mres = masync.get(timeout=3000)
@@ -1086,6 +1099,137 @@ def run(ctx: core.Check):
         for chk, detail in res["problems"]:
             ctx.fail({**feat, "check": chk}, case, f"real moment code on {res['name']}: {chk} — {detail}")
     ctx.extra_cov["moment_stream"] = [{k: r.get(k) for k in ("name", "method", "support", "mean", "var", "secs", "err")} for r in mres][:40]
+
+
+def edge_stream(ctx):
+    """inputs for which NO p-box can be produced must raise (whatever else the code does); valid inputs right at the
+    edge must return a well-formed value.  The oracle is "raises" / "returns well formed", independent of the model."""
+    from pyuncertainnumber import pba
+    from pyuncertainnumber.pba.pbox_abc import Staircase
+    from pyuncertainnumber.pba.ecdf import get_ecdf, eCDF_bundle
+    I = pba.I
+    rng = ctx.rng
+    hiS = r2(rng, 0.5, 3)          # the valid end of the parameter interval
+    p = pba.normal([1, 2], [0.5, 1])
+    strad = I(-1, 2).to_pbox()
+
+    def crossing_bundle():
+        q1, p1 = get_ecdf(np.array([1.0, 2.0, 6.0, 7.0]))
+        q2, p2 = get_ecdf(np.array([0.5, 3.0, 4.0, 8.0]))
+        return pba.pbox_from_ecdf_bundle(eCDF_bundle(q1, p1), eCDF_bundle(q2, p2))
+
+    MUST_RAISE = [
+        # a parameter interval that leaves the family's domain at ONE corner only (touching / straddling), every spelling
+        ("param-corner", "normal(5,[0,s])", lambda: pba.normal(5, [0, hiS])),
+        ("param-corner", "normal([4,5],[-1,s])", lambda: pba.normal([4, 5], [-1, hiS])),
+        ("param-corner", "normal(5,I(0,s))", lambda: pba.normal(5, I(0, hiS))),
+        ("param-corner", "gaussian(5,[0,s])", lambda: pba.gaussian(5, [0, hiS])),
+        ("param-corner", "norm(5,[-1e-9,s])", lambda: pba.norm(5, [-1e-9, hiS])),
+        ("param-corner", "gamma([0,2])", lambda: pba.gamma([0, 2])),
+        ("param-corner", "gamma([-1,2],[1,2])", lambda: pba.gamma([-1, 2], [1, 2])),
+        ("param-corner", "gamma(2,0,[0,1])", lambda: pba.gamma(2, 0, [0, 1])),
+        ("param-corner", "beta([-1,2],3)", lambda: pba.beta([-1, 2], 3)),
+        ("param-corner", "beta(2,[0,3])", lambda: pba.beta(2, [0, 3])),
+        ("param-corner", "exponential(scale=[0,2])", lambda: pba.exponential(scale=[0, 2])),
+        ("param-corner", "exponential(scale=[-1,2])", lambda: pba.exponential(scale=[-1, 2])),
+        ("param-corner", "lognormal(0,[0,1])", lambda: pba.lognormal(0, [0, 1])),
+        ("param-corner", "t([0,3])", lambda: pba.t([0, 3])),
+        ("param-corner", "chi2([0,3])", lambda: pba.chi2([0, 3])),
+        ("param-corner", "weibull_min([0,2])", lambda: pba.weibull_min([0, 2])),
+        ("param-corner", "laplace(0,[0,1])", lambda: pba.laplace(0, [0, 1])),
+        ("param-corner", "gumbel_r(0,[-1,1])", lambda: pba.gumbel_r(0, [-1, 1])),
+        ("param-corner", "D('gaussian',(5,[0,1])).to_pbox()", lambda: pba.D("gaussian", (5, [0, 1])).to_pbox()),
+        ("param-corner", "D('norm',[5,[0,1]]).to_pbox()", lambda: pba.D("norm", [5, [0, 1]]).to_pbox()),
+        ("param-corner", "D('gamma',([0,2],)).to_pbox()", lambda: pba.D("gamma", ([0, 2],)).to_pbox()),
+        ("param-corner", "2*normal(5,[0,1])+1", lambda: 2 * pba.normal(5, [0, 1]) + 1),
+        ("param-corner", "normal(5,[0,1]).add(p,'p')", lambda: pba.normal(5, [0, 1]).add(p, dependency="p")),
+        ("param-all-corners", "normal(5,0)", lambda: pba.normal(5, 0)),
+        ("param-all-corners", "normal(5,[-2,-1])", lambda: pba.normal(5, [-2, -1])),
+        ("param-all-corners", "uniform(3,1)", lambda: pba.uniform(3, 1)),
+        # impositions that are empty: at every step (a whole-array switch would hide it), at some steps, as the last of three
+        ("imposition-empty", "imposition(I(1,2),I(3,4)) boxes", lambda: pba.imposition(I(1, 2).to_pbox(), I(3, 4).to_pbox())),
+        ("imposition-empty", "imposition(I(3,4),I(1,2)) boxes", lambda: pba.imposition(I(3, 4).to_pbox(), I(1, 2).to_pbox())),
+        ("imposition-empty", "imposition(I(1,2),I(3,4)) intervals", lambda: pba.imposition(I(1, 2), I(3, 4))),
+        ("imposition-empty", "imposition(p,p+100)", lambda: pba.imposition(p, p + 100)),
+        ("imposition-empty", "(p+100).imp(p)", lambda: (p + 100).imp(p)),
+        ("imposition-empty", "imposition(p,q,I(50,60))", lambda: pba.imposition(p, pba.normal([1.5, 2.5], 1), I(50, 60))),
+        ("imposition-empty", "imposition partly empty", lambda: pba.imposition(pba.uniform(0, 4), pba.uniform(3, 5))),
+        # unary maps just outside their domain
+        ("domain-edge", "sqrt lo=-1e-17", lambda: I(-1e-17, 4).to_pbox().sqrt()),
+        ("domain-edge", "np.sqrt lo=-1e-17", lambda: np.sqrt(I(-1e-17, 4).to_pbox())),
+        ("domain-edge", "log lo=0", lambda: I(0, 4).to_pbox().log()),
+        ("domain-edge", "log lo=-1e-17", lambda: I(-1e-17, 4).to_pbox().log()),
+        ("domain-edge", "np.log lo=-1e-17", lambda: np.log(I(-1e-17, 4).to_pbox())),
+        ("domain-edge", "straddling ** -1", lambda: strad ** -1),
+        ("domain-edge", "straddling ** -3", lambda: pba.normal([-1, 1], 1) ** -3),
+        # constructors whose arguments describe no p-box
+        ("no-such-box", "from_percentiles non-nested", lambda: pba.from_percentiles({0: 0, 0.5: I(1, 5), 0.75: I(2, 3), 1: 6})),
+        ("no-such-box", "from_percentiles decreasing", lambda: pba.from_percentiles({0: 0, 0.5: 3, 0.75: 2, 1: 6})),
+        ("no-such-box", "crossing ECDF bundle", crossing_bundle),
+        ("no-such-box", "min_max(3,1)", lambda: pba.min_max(3, 1)),
+        ("no-such-box", "min_mean(2,1)", lambda: pba.min_mean(2, 1)),
+        ("no-such-box", "mean_std(1,-1)", lambda: pba.mean_std(1, -1)),
+        ("no-such-box", "min_max_mean(0,2,3)", lambda: pba.min_max_mean(0, 2, 3)),
+        ("no-such-box", "Staircase NaN", lambda: Staircase(left=np.array([0.0, np.nan] * 100), right=np.arange(200.0) + 5)),
+        # reciprocal / division by a box that straddles zero at EVERY step: see the known finding
+        ("reciprocal-straddle", "I(-1,2).reciprocal()", lambda: strad.reciprocal()),
+        ("reciprocal-straddle", "1 / I(-1,2)", lambda: 1 / strad),
+        ("reciprocal-straddle", "p.div(I(-1,2),'f')", lambda: p.div(strad, dependency="f")),
+    ]
+    for group, name, f in MUST_RAISE:
+        ctx.count(("must-raise", name), True, "must-raise")
+        try:
+            v = f()
+        except BaseException as e:  # noqa
+            ctx.bump("must-raise:" + core.err_kind(e))
+            continue
+        try:
+            desc = f"{type(v).__name__} with support [{float(v.left[0])!r}, {float(v.right[-1])!r}]"
+        except Exception:  # noqa
+            desc = type(v).__name__
+        ctx.fail({"node": "edge", "stream": "must-raise", "group": group, "name": name, "check": "returned-instead-of-raising"},
+                 {"call": name, "group": group, "returned": desc},
+                 f"{name}: no p-box can be produced from this input, yet the call returned a {desc} instead of raising")
+
+    big = np.arange(4097.0)
+    MUST_RETURN = [
+        ("param-valid-edge", "normal(5,[1e-12,s])", lambda: pba.normal(5, [1e-12, hiS])),
+        ("param-valid-edge", "gamma([1e-3,2])", lambda: pba.gamma([1e-3, 2])),
+        ("param-valid-edge", "exponential(scale=[1e-9,2])", lambda: pba.exponential(scale=[1e-9, 2])),
+        ("imposition-touching", "imposition(I(1,2),I(2,3))", lambda: pba.imposition(I(1, 2).to_pbox(), I(2, 3).to_pbox())),
+        ("imposition-same", "imposition(p,p)", lambda: pba.imposition(p, p)),
+        ("same-operand", "p.sub(p,'p')", lambda: p.sub(p, dependency="p")),
+        ("same-operand", "p*p", lambda: p * p),
+        ("same-operand", "envelope(p,p)", lambda: pba.envelope(p, p)),
+        ("domain-valid-edge", "sqrt lo=0", lambda: I(0, 4).to_pbox().sqrt()),
+        ("domain-valid-edge", "log lo=1e-300", lambda: I(1e-300, 4).to_pbox().log()),
+        ("domain-valid-edge", "exp hi=709", lambda: I(1, 709).to_pbox().exp()),
+        ("domain-valid-edge", "tanh of a wide box", lambda: (p * 500).tanh()),
+        ("dtype", "uint8 bounds", lambda: Staircase(left=np.arange(200, dtype=np.uint8) // 2, right=np.arange(200, dtype=np.uint8) // 2 + 3)),
+        ("dtype", "-(uint8 bounds)", lambda: -Staircase(left=np.arange(200, dtype=np.uint8) // 2, right=np.arange(200, dtype=np.uint8) // 2 + 3)),
+        ("dtype", "(uint8 bounds) - 5", lambda: Staircase(left=np.arange(200, dtype=np.uint8) // 2, right=np.arange(200, dtype=np.uint8) // 2 + 3) - 5),
+        ("dtype", "(uint8 bounds) * np.uint8(3)", lambda: Staircase(left=np.arange(200, dtype=np.uint8) // 2, right=np.arange(200, dtype=np.uint8) // 2 + 3) * np.uint8(3)),
+        ("long-bounds", "Staircase 4097 values", lambda: Staircase(left=big, right=big + 1)),
+        ("long-bounds", "Staircase 1025 values", lambda: Staircase(left=big[:1025], right=big[:1025] + 1)),
+        ("long-bounds", "ECDF 261 samples", lambda: pba.ECDF(np.linspace(0, 1, 261))),
+        ("long-bounds", "ECDF 200 samples", lambda: pba.ECDF(np.linspace(0, 1, 200))),
+        ("long-bounds", "ECDF 1000 samples * 2 + 1", lambda: pba.ECDF(np.sin(np.arange(1000.0))) * 2 + 1),
+        ("long-bounds", "-ECDF 4097 samples", lambda: -pba.ECDF(np.cos(np.arange(4097.0)))),
+    ]
+    for group, name, f in MUST_RETURN:
+        ctx.count(("must-return", name), True, "must-return")
+        try:
+            v = f()
+        except BaseException as e:  # noqa
+            ctx.fail({"node": "edge", "stream": "must-return", "group": group, "name": name, "check": "valid-input-raises"},
+                     {"call": name, "group": group}, f"{name}: a valid input at the edge of the domain raised {type(e).__name__}: {str(e)[:80]}")
+            continue
+        report_problems(ctx, wf_problems(v), {"node": "edge", "stream": "must-return", "group": group, "name": name}, {"call": name, "group": group}, name)
+    # the operands used above are still what they were
+    for nm, v, want in (("p", p, pba.normal([1, 2], [0.5, 1])), ("I(-1,2)", strad, I(-1, 2).to_pbox())):
+        if not (np.array_equal(v.left, want.left) and np.array_equal(v.right, want.right)):
+            ctx.fail({"node": "edge", "stream": "must-return", "check": "operand-changed", "name": nm}, {"operand": nm},
+                     f"the operand {nm} of the edge stream was modified in place")
 
 
 def sequence_stream(ctx):
